@@ -95,7 +95,12 @@ class Transformer(BaseEstimator, TransformerMixin, ABC):
             # Convert DataArray to Dataset
             coords = {}
             data_vars = {}
-            if data.name in data.coords:
+            is_coord = (
+                data.name in data.coords
+                and data.dims == (data.name,)
+                and data.coords[data.name].variable.equals(data.variable)
+            )
+            if is_coord:
                 # Convert a coord-like DataArray to Dataset and note multiindexes
                 if isinstance(data.to_index(), pd.MultiIndex):
                     multiindexes[data.name] = [n for n in data.to_index().names]
@@ -103,7 +108,17 @@ class Transformer(BaseEstimator, TransformerMixin, ABC):
             else:
                 # Make sure the DataArray has some name so we can create a string mapping
                 # (on a renamed copy: the array may be a user object, e.g. the weights)
-                if data.name is None:
+                # ... and that the name can label a data variable next to the array's own
+                # coordinates (the name is the user's: it may be empty, contain a path
+                # separator or equal one of the array's coordinates or dimensions)
+                name = data.name
+                if (
+                    not isinstance(name, str)
+                    or name == ""
+                    or "/" in name
+                    or name in data.coords
+                    or name in data.dims
+                ):
                     data = data.rename(key)
                 data_vars[data.name] = data
             ds = xr.Dataset(data_vars=data_vars, coords=coords)
